@@ -223,7 +223,12 @@ impl Lockfile {
                 self.projects.push(lock.clone());
             }
         }
-        self.projects.sort_by(|x, y| x.source.cmp(&y.source));
+        // total order: `LockSource::cmp` ignores properties, and the table is a HashMap
+        self.projects.sort_by(|x, y| {
+            x.source
+                .cmp(&y.source)
+                .then_with(|| x.name.cmp(&y.name))
+        });
 
         let mut text = String::new();
         text.push_str("# This file is automatically @generated by Veryl.\n");
@@ -424,7 +429,7 @@ impl Lockfile {
 
     fn sort_table(&mut self) {
         for locks in self.lock_table.values_mut() {
-            locks.sort_by(|a, b| b.source.cmp(&a.source));
+            locks.sort_by(|a, b| b.source.cmp(&a.source).then_with(|| a.name.cmp(&b.name)));
         }
     }
 
@@ -456,7 +461,9 @@ impl Lockfile {
 
         // breadth first search because root has top priority of name
         let mut dependencies_metadata = Vec::new();
-        for (name, dep) in &metadata.dependencies {
+        // `dependencies` is a HashMap: walk it in name order so that name
+        // suffixes, uuid dedup and the lock file do not depend on hash order
+        for (name, dep) in Self::sorted_dependencies(metadata) {
             let dependency = self.resolve_dependency(metadata, name, dep, root, root_metadata)?;
             let metadata = self.get_metadata(&dependency.source)?;
             let mut name = dependency.name.clone();
@@ -503,7 +510,7 @@ impl Lockfile {
             }
 
             let mut dependencies = Vec::new();
-            for (name, dep) in &metadata.dependencies {
+            for (name, dep) in Self::sorted_dependencies(&metadata) {
                 let dependency =
                     self.resolve_dependency(&metadata, name, dep, root, root_metadata)?;
                 // project local name is not required to check name_table
@@ -539,6 +546,12 @@ impl Lockfile {
         }
 
         Ok(ret)
+    }
+
+    fn sorted_dependencies(metadata: &Metadata) -> Vec<(&String, &Dependency)> {
+        let mut ret: Vec<_> = metadata.dependencies.iter().collect();
+        ret.sort_by(|a, b| a.0.cmp(b.0));
+        ret
     }
 
     fn resolve_dependency(
